@@ -104,16 +104,20 @@ def stateCommit (l : Ledger.L) (h : Nat) (serial : Nat) (txs : List String) : Le
   let (l4, f) := Ledger.flush (fun _ => s!"r{h}-{serial}") l3
   (Ledger.commit l4 h f).getD l4
 
+/-- the block built for the next height -/
+def mkBlk (n : Node) (txs : List String) (counter : KV String Nat) : Blk :=
+  { height := n.cmeta.1 + 1, hash := s!"B{n.cmeta.1 + 1}.{n.serial + 1}", parent := n.cmeta.2.1, txs := txs, counter := counter }
+
+/-- chain-side effect of persisting block `b`: index batch, blockfile append, cached meta -/
+def applyBlk (n : Node) (b : Blk) : Node :=
+  { n with idx := indexBatch n.idx b n.cmeta.2.2, tbl := n.tbl.append b, blocks := n.blocks + 1,
+           cmeta := (b.height, b.hash, countOf b + n.cmeta.2.2) }
+
 /-- `PersistBlockData` for the next block; `none` = "the append operation is out-order" panic -/
 def persist (n : Node) (txs : List String) (counter : KV String Nat) : Option (Node × Blk) :=
-  let h := n.cmeta.1 + 1
-  let serial := n.serial + 1
-  let b : Blk := { height := h, hash := s!"B{h}.{serial}", parent := n.cmeta.2.1, txs := txs, counter := counter }
-  let st' := stateCommit n.st h serial txs
+  let b := mkBlk n txs counter
   if n.blocks ≠ n.cmeta.1 then none
-  else
-    some ({ n with idx := indexBatch n.idx b n.cmeta.2.2, tbl := n.tbl.append b, blocks := n.blocks + 1,
-                   cmeta := (h, b.hash, countOf b + n.cmeta.2.2), st := st', serial := serial }, b)
+  else some ({ applyBlk n b with st := stateCommit n.st b.height (n.serial + 1) txs, serial := n.serial + 1 }, b)
 
 inductive RbErr | higher | tooMuch | noJournal | chain
 deriving Repr, DecidableEq
